@@ -23,6 +23,7 @@ func init() {
 			{ID: "C13.R1", Min: 1, Doc: "per-item accounting by path enumeration of one iteration of the item loop (from the loop body entry back to the header)", Run: c13r1},
 			{ID: "C13.R2", Min: 1, Doc: "scalar switches agree: type sets of the comma-ok assertions on data[1] (value) and data[0] (timestamp) are equal", Run: c13r2},
 			{ID: "C13.R3", Min: 3, Doc: "unchecked assertions are dominated by the ok edge of a checked assertion of the same type on the same slot; the dispatched line is built as metric + \" \" + value + \" \" + timestamp", Run: c13r3},
+			{ID: "C13.R5", Min: 1, Doc: "one decoder per frame: the receiver of every Decoder.Decode call in the pickle input is the result of ogorek.NewDecoder constructed inside every loop that contains the Decode call (directly, or handed to a helper from such a place) — a decoder kept across frames carries its memo along, and protocol 4 resolves memo references by position", Run: c13r5},
 			{ID: "C13.R4", Min: 3, Doc: "framing primitives: binary.Read(r, BigEndian, *uint32) (or io.ReadFull) for the length; payload loop exit test lengthRead == lengthTotal; checkProtocol truth table over the peeked prefix bytes (reject-direction only)", Run: c13r4},
 		},
 	})
@@ -656,4 +657,75 @@ func keysOf(m map[string]bool) []string {
 	}
 	sort.Strings(out)
 	return out
+}
+
+// c13r5: every frame is decoded by its own decoder. The unpickler keeps a memo of the objects it
+// has seen; protocol 4 refers to memo entries by position, so a decoder that lives across frames
+// resolves a reference in a later frame to an object of an earlier one — silently another datapoint.
+func c13r5(c *Check) {
+	h := c.P.Func("input", "*Pickle", "Handle")
+	n := 0
+	for _, fn := range samePkgCallees(c.P, h) {
+		fn := fn
+		loops := loopsOf(fn)
+		allInstrs(fn, func(in ssa.Instruction) {
+			call, ok := in.(*ssa.Call)
+			if !ok || !strings.HasSuffix(calleeName(call.Common()), "og-rek.Decoder).Decode") {
+				return
+			}
+			n++
+			key := "input." + fn.Name() + " decodes each frame with a fresh decoder"
+			recv := call.Call.Args[0]
+			bad := ""
+			// where does the decoder come from?
+			var origin func(v ssa.Value, at ssa.Instruction, f *ssa.Function, ls []*Loop, depth int)
+			origin = func(v ssa.Value, at ssa.Instruction, f *ssa.Function, ls []*Loop, depth int) {
+				if depth > 3 {
+					bad = "the decoder's origin could not be traced"
+					return
+				}
+				switch x := v.(type) {
+				case *ssa.Call:
+					if !strings.HasSuffix(calleeName(x.Common()), "og-rek.NewDecoder") && !strings.HasSuffix(calleeName(x.Common()), "og-rek.NewDecoderWithConfig") {
+						bad = "the decoder comes from " + short(calleeName(x.Common())) + ", not from a constructor call"
+						return
+					}
+					for _, l := range ls {
+						if l.Body[at.Block()] && !l.Body[x.Block()] {
+							bad = "the decoder is created once (" + c.At(x) + ") outside the loop that decodes frame after frame: its memo of seen objects survives from one frame to the next, and a protocol-4 frame's back-references then resolve to objects of an earlier frame"
+						}
+					}
+				case *ssa.Parameter:
+					idx := -1
+					for i, p := range f.Params {
+						if p == x {
+							idx = i
+						}
+					}
+					ins := c.P.CG().In[f]
+					if len(ins) == 0 || idx < 0 {
+						bad = "the decoder is a parameter of a function without known callers"
+						return
+					}
+					for _, e := range ins {
+						cc := callCommon(e.Site)
+						if e.Kind != EdgeCall || e.Dyn || cc == nil || idx >= len(cc.Args) {
+							bad = "the decoder is handed in through a call that could not be resolved"
+							return
+						}
+						origin(cc.Args[idx], e.Site, e.Caller, loopsOf(e.Caller), depth+1)
+					}
+				case *ssa.Phi:
+					bad = "the decoder differs from path to path (" + c.At(x) + ")"
+				default:
+					bad = "the decoder is kept in a variable or field that outlives the frame (" + describeVal(v) + ")"
+				}
+			}
+			origin(recv, in, fn, loops, 0)
+			c.Judge(bad == "", key, c.At(in), "the decoder is constructed in the same loop iteration that decodes the frame", bad)
+		})
+	}
+	if n == 0 {
+		anchorFail("no call of ogorek's Decoder.Decode found in the pickle input")
+	}
 }
